@@ -968,7 +968,7 @@ func ruleXZWriterFormat(c *Ctx, r *Report, prefix string) {
 				for _, ins := range b.Instrs {
 					if s, isSt := ins.(*ssa.Store); isSt {
 						if fa, isFA := s.Addr.(*ssa.FieldAddr); isFA {
-							st = append(st, fieldOfAddr(fa).Name())
+							st = append(st, refNameOf(fieldOfAddr(fa)))
 						}
 					}
 				}
